@@ -475,7 +475,7 @@ def _base_record(job, u, sstore, r0, rtips0, shal0):
         "wants": [list(w) for w in job["wants"]], "forged": int(job.get("forged", 0)),
         "inctag": int(bool(caps.get("inctag")) and job["op"] != "push" and job["transport"] not in ("local", "localpack")),
         "mwants": [list(w) for w in job["wants"]], "ok": 0, "cap": 0, "sent": [], "sunk": 0, "thin": [],
-        "hk": 0, "haves": [], "mode": _mode_of(caps), "srv": [], "cli": [], "rheads": sorted(job["rh"]), "miv": 256,
+        "hk": 0, "haves": [], "offered": [], "mode": _mode_of(caps), "srv": [], "cli": [], "rheads": sorted(job["rh"]), "miv": 256,
         "transport": job["transport"], "step": job.get("step", 0), "err": "", "info": {},
     }
 
@@ -528,6 +528,11 @@ def _run_job(job):
             finally:
                 clog, _state["clog"] = _state["clog"], None
             _client_symptoms(rec, clog, bool(sj.get("caps", {}).get("v2")))
+            # every object a dulwich client offered as a "have" (its own pkt-line log, or the walker log)
+            off = [p[5:45].decode() for d, p in (clog or []) if d == "w" and p and p.startswith(b"have ")]
+            known, unknown = u.names(off)
+            rec["offered"] = _objs(set(known)) + [e[2] for e in rec["cli"] if e[0] == "w" and e[1] == "have" and e[2] not in _objs(set(known))]
+            rec["info"]["offered_unknown"] = len(unknown)
             rec["info"]["ms"] = round((time.time() - t0) * 1000, 1)
             # projection of the receiving directory by a fresh reader
             if os.path.isdir(rpath):
